@@ -180,7 +180,47 @@ def tracer_fails(case):
     return None
 
 
+def drivers_case(rng):
+    n = rng.randint(2, 4)
+    return {'op': 'tracer-drivers', 'rec': rand_coeffs(rng, (n,), 0.5, 2), 'pt': rand_coeffs(rng, (n,), 0.5, 2),
+            'v': rand_coeffs(rng, (n,), -1, 1), 'prog': rng.choice(['plain', 'writes-into-independent'])}
+
+
+def drivers_fail(case):
+    """no driver call modifies the point (or vector) the user passes, also when the recorded program updates its
+    independent variable in place (as the householder example of the documentation does).  cg.function / cg.pushforward are
+    not part of this: there the caller's object *is* the independent variable of the re-evaluated program"""
+    rec = np.array(case['rec'])
+    cg = algopy.CGraph()
+    fx = algopy.Function(rec.copy())
+    if case['prog'] == 'writes-into-independent':
+        fx[0] = fx[0] * fx[1]
+    fz = algopy.sum(fx * fx + algopy.sin(fx))
+    cg.trace_off()
+    cg.independentFunctionList = [fx]
+    cg.dependentFunctionList = [fz]
+    v0 = np.array(case['v'])
+    calls = [('gradient', lambda p, v: cg.gradient(p)), ('jacobian', lambda p, v: cg.jacobian(p)),
+             ('hessian', lambda p, v: cg.hessian(p)), ('hess_vec', lambda p, v: cg.hess_vec(p, v)), ('jac_vec', lambda p, v: cg.jac_vec(p, v)),
+             ('vec_jac', lambda p, v: cg.vec_jac(np.array([1.5]), p)), ('gradient', lambda p, v: cg.gradient(p))]
+    for name, f in calls:
+        p, v = np.array(case['pt']), v0.copy()
+        p0 = p.copy()
+        try:
+            with np.errstate(all='ignore'):
+                f(p, v)
+        except Exception:
+            continue
+        if not np.array_equal(p, p0):
+            return 'driver-mutates-point: cg.%s(x) modified the array x passed by the caller (program: %s)' % (name, case['prog'])
+        if not np.array_equal(v, v0):
+            return 'driver-mutates-vector: cg.%s modified the vector passed by the caller' % name
+    return None
+
+
 def replay_case(ctx, case):
+    if case.get('op') == 'tracer-drivers':
+        return drivers_fail(case)
     if case.get('op') == 'alias':
         return alias_fails(ctx, case)
     if case.get('op') == 'tracer':
@@ -225,6 +265,16 @@ def run(ctx):
         ctx.count('tracer=' + case['prog'])
         try:
             f = tracer_fails(case)
+        except Exception as ex:
+            f = None
+        if f:
+            ctx.report(case, 'failure', f)
+    for i in range(20 if ctx.tier == 'quick' else 200):
+        case = drivers_case(ctx.rng)
+        ctx.evaluations += 1
+        ctx.count('tracer-drivers=' + case['prog'])
+        try:
+            f = drivers_fail(case)
         except Exception as ex:
             f = None
         if f:
